@@ -1,5 +1,6 @@
 import OpusProofs.SilkSymsDecode
 import OpusProofs.SilkSymsHistory
+import OpusProofs.SilkSymsLag
 import OpusProofs.CeltSymsHeader
 /-
   Property C03 — "decoder output conforms to the RFC 6716 reference decoder", bit-stream half, stage 1:
@@ -118,6 +119,20 @@ example : (match obsPacket (decodePacket 48000 false false
              { ch0 := { ecPrevSignalType := 2, ecPrevLagIndex := 1000 }, prevDecodeOnlyMiddle := 1 }
              [0x4c, 0x9a, 0x3b, 0x71, 0x05, 0xe0, 0x2f]) with
            | .ok (some [.silk 1 o]) => decide (o.evs.length ≥ 7) | _ => false) = true := by decide +kernel
+
+/-- Packet-level bound on the pitch-lag index: in every frame of every packet, from every decoder history and in both
+    decoding modes, a voiced frame's `lagIndex` lies in `[-48, 321]` — far inside `opus_int16`, so the
+    `(opus_int16)( ec_prevLagIndex + delta_lagIndex )` store of decode_indices.c:112 never wraps.
+    (Counting argument from the zero state — at most `2·nFramesPerPacket ≤ 6` steps of −8…+11 after an absolute lag in
+    `[0, 255]` — carried to arbitrary histories by `silkSyms_symbols_history_free`.  The sharper `[-16, 277]`, which
+    needs "a conditionally coded frame follows at most two frames after an absolutely coded one", is not proved.) -/
+theorem silkSyms_lag_index_packet_bound (fs : Nat) (decodeFec prevModeCelt : Bool) (st : SilkSt) (pkt : Bytes)
+    (frames : List FrameRes) (h : decodePacket fs decodeFec prevModeCelt st pkt = .ok (some frames)) :
+    ∀ f ∈ frames, FrameResLag f :=
+  decodePacket_lag fs decodeFec prevModeCelt st pkt frames h
+
+example : LagEv 6 (.indices 0 1 0 2 .wb 4 2 100 { (default : Indices) with signalType := 2, lagIndex := 111 }) := by
+  intro _; constructor <;> decide
 
 /-! ## Stage 2: the CELT frame header (OpusModel/CeltSyms.lean) -/
 
